@@ -895,6 +895,16 @@ func (fr *Frame) binop(op token.Token, xt types.Type, x, y Value, yt types.Type,
 			return &VBV{ts.Fp(OFpLe, a, b)}
 		case token.GEQ:
 			return &VBV{ts.Fp(OFpLe, b, a)}
+		case token.ADD:
+			// x + (+0): the identity except that -0 becomes +0 (IEEE 754 round-to-nearest); NaN stays NaN
+			v, z := a, b
+			if a.IsConst() && a.Val == 0 {
+				v, z = b, a
+			}
+			if z.IsConst() && z.Val == 0 {
+				negZero := ts.BV(uint64(1)<<uint(v.W-1), v.W)
+				return &VBV{ts.Ite(ts.Eq(v, negZero), ts.BV(0, v.W), v)}
+			}
 		}
 		panic(unsupported("float arithmetic " + op.String()))
 	case isBool(xt):
